@@ -106,6 +106,15 @@ func GenSpec(r *Rand, edits int) (M, []string) {
 				ps = append(ps, M{"$ref": "#/parameters/limitParam"})
 				usedLimit = true
 			}
+			if r.Chance(100) {
+				// a collection of collections (items.items), optionally with defaults at each level
+				inner := M{"type": "array", "items": M{"type": pick(r, []string{"integer", "string"})}}
+				m := M{"name": "matrix", "in": "query", "type": "array", "items": inner}
+				if r.Chance(400) {
+					m["default"] = []any{[]any{1, 2}}
+				}
+				ps = append(ps, m)
+			}
 			if (m == "post" || m == "put") && r.Chance(700) {
 				if r.Chance(750) {
 					ps = append(ps, M{"name": "body", "in": "body", "required": true, "schema": refDef()})
@@ -128,6 +137,9 @@ func GenSpec(r *Rand, edits int) (M, []string) {
 			}
 			if r.Chance(300) {
 				ok["headers"] = M{"X-Rate": M{"type": "integer", "default": 5}}
+				if r.Chance(300) {
+					ok["headers"].(M)["X-Matrix"] = M{"type": "array", "items": M{"type": "array", "items": M{"type": "integer"}}}
+				}
 			}
 			resp := M{"200": ok}
 			if r.Chance(400) {
